@@ -161,7 +161,7 @@ CLAIMS = {
                  "object, empty chunks skipped, str encoded before measuring; body_to_chunks per body kind measures the very object it "
                  "sends; every pool-level resend carries the caller's body and the position recorded by set_file_position before the "
                  "first attempt, and a body-less (303) resend carries no position; rewind_body seeks or raises UnrewindableBodyError, "
-                 "_FAILEDTELL always raises it. Declined: payload byte equality."),
+                 "_FAILEDTELL always raises it. Declined: payload byte equality. The size line of a chunk counts bytes: len() is taken of bytes or of a byte view of the chunk, never of a buffer with wide items (C11-R2; found F28, repaired)."),
         "note": _TRUST + "Known findings: F5 (manager-level resend has no body_pos), F6a/F6b (bodies without tell() / iterators are re-sent empty). F13 (303 + seekable body raised ValueError) was found by these rules' development and repaired in /repo.",
         "technique": "static analysis: decision-table extraction on request()/body_to_chunks/rewind_body, provenance tags at resend sites, sibling cross-check of classifiers",
     },
